@@ -79,6 +79,8 @@ def check(case):
           tids = [op[3]] if kind in TOUCH else [
               x[0] for x in op[3] if x[0] != 'study']
           for tid in tids:
+            if not str(tid).isdigit():
+              continue  # not a trial id at all
             t = st_.trials.get(int(tid))
             if t is not None and t.state in (sm.TS.SUCCEEDED,
                                              sm.TS.INFEASIBLE):
